@@ -1689,8 +1689,12 @@ class Scheduler:
         job.eval_args = eval_args
 
         # Preprocess arguments before sending them to task function.
-        args, kwargs = job.eval_args
-        args, kwargs = job.args = self._preprocess_args(job, args, kwargs)
+        # A job that had to wait for resource limits comes through here again. Its arguments
+        # must only be preprocessed once, since preprocessing forks Handles.
+        if job.args is None:
+            args, kwargs = job.eval_args
+            job.args = self._preprocess_args(job, args, kwargs)
+        args, kwargs = job.args
 
         # Check cache using eval_hash as key.
         job.eval_hash, job.args_hash = hash_args_eval(self.type_registry, job.task, args, kwargs)
